@@ -6,4 +6,4 @@ wt=/tmp/ws_$$
 git -C /repo worktree add -q --detach $wt HEAD || exit 2
 trap "git -C /repo worktree remove --force $wt; rm -rf $wt" EXIT
 git -C $wt apply /verif/$d/patch.diff || git -C $wt apply --3way /verif/$d/patch.diff || exit 3
-PLUSH_REPO=$wt /verif/bin/plushcheck "$@"
+PLUSH_REPO=$wt ${PLUSHCHECK:-/verif/bin/plushcheck} "$@"
